@@ -11,6 +11,7 @@ def jobs(tier):
         out.append(dict(name='binary_op%d_groups' % op, src='h_udqset.cpp', defs={'OPK': op, 'GROUPSET': 1}, entry='h_binary', tus=TUS, fp='real', loopmax=2000, maxsteps=40000000, bounds='operator %s, group sets' % '+-*/'[op]))
     out.append(dict(name='reductions', src='h_udqset.cpp', defs={}, entry='h_reductions', tus=TUS, fp='real', loopmax=2000, maxsteps=40000000, partial_sites=False))
     out.append(dict(name='elemental', src='h_udqset.cpp', defs={}, entry='h_elemental', tus=TUS, fp='real', loopmax=2000, maxsteps=40000000))
+    out.append(dict(name='compare', src='h_udqset.cpp', defs={}, entry='h_compare', tus=TUS, fp='real', loopmax=2000, maxsteps=40000000, bounds='six comparison functions, 3-element sets, tolerance 1e-4, non-zero left operand'))
     out.append(dict(name='union', src='h_udqset.cpp', defs={}, entry='h_union', tus=TUS, fp='real', loopmax=2000, maxsteps=40000000))
     PT = ['opm/input/eclipse/Schedule/UDQ/%s.cpp' % n for n in ('UDQASTNode', 'UDQContext', 'UDQEnums', 'UDQFunction', 'UDQFunctionTable', 'UDQParams', 'UDQParser', 'UDQSet', 'UDQState', 'UDQToken', 'UDT')] + [
           'opm/input/eclipse/Schedule/SummaryState.cpp', 'opm/input/eclipse/Schedule/Well/WellMatcher.cpp', 'opm/input/eclipse/Schedule/Well/NameOrder.cpp', 'opm/input/eclipse/Parser/ParseContext.cpp',
